@@ -8,8 +8,6 @@ import (
 	"testing"
 
 	"kmipverif/simrt"
-
-	"github.com/ovh/kmip-go/ttlv"
 )
 
 // TestCodecRace is the auxiliary, NON-simulation step of C20's thorough tier (DESIGN §3 C20): the
@@ -22,7 +20,7 @@ func TestCodecRace(t *testing.T) {
 	seed, _ := strconv.ParseUint(os.Getenv("KMIPVERIF_RACE_SEED"), 10, 64)
 	codecReference()
 	for round := 0; round < 40; round++ {
-		ttlv.VerifResetPlanCaches()
+		resetCodecCaches()
 		var wg sync.WaitGroup
 		var mu sync.Mutex
 		var bad []string
